@@ -189,7 +189,7 @@ theorem checkRootN_first (root : CN) (ts : Types) (hc : clsSAll root ts = true) 
   have hct : ∀ n t, lookupT ts n = some t → clsS ts t = true :=
     fun n t h => htypes (n, t) (lookupT_mem ts n t h)
   have hfuel : ∃ f, checkFuel (some root) ts = f + 1 :=
-    ⟨ts.length + 1 + namesCount root + (ts.map fun t => namesCount t.2).sum, by simp only [checkFuel]; omega⟩
+    ⟨ts.length + 1 + 2 * (namesCount root + (ts.map fun t => namesCount t.2).sum), by simp only [checkFuel]; omega⟩
   obtain ⟨f, hf⟩ := hfuel
   simp only [checkRootN, hf, visitAll, mustAllN_append, checkNodeN_first ts f root hroot, checkOrListsN_first,
     checkTypesN_first ts f hct]
